@@ -130,6 +130,7 @@ def queryTree (t : TS) (cmd : String) (a : List (String × String)) : String :=
       | none => "panic"
       | some items => "items=" ++ "|".intercalate (items.map showKv)
     | _, _, _, _ => "bad-request scan"
+  | "weaksafe" => if stateWeakSafeB t then "ok" else "FAIL"
   | "admissible" =>
     match (arg a "ids").bind parseNats, natArg a "dest", t.latest? with
     | some ids, some dest, some sv =>
